@@ -4,6 +4,7 @@ Formats with a Lean container model: FLAC.  The other formats are decided by the
 independent walkers on the real output (harness/walkers.py); see the evidence file.
 -/
 import MutagenModel.Proofs.Container.Flac
+import MutagenModel.Proofs.Container.ApeFile
 import MutagenModel.Proofs.Container.Id3File
 set_option linter.unusedVariables false
 namespace Mutagen.C02
@@ -53,5 +54,33 @@ example : (Id3F.Layout.mk ([0x49, 0x44, 0x33, 4, 0, 0, 0, 0, 0, 2] ++ [7, 7]) (L
     ([0x54, 0x41, 0x47] ++ List.replicate 125 0)).OK := by
   refine ⟨Or.inr ⟨4, [0x49, 0x44, 0x33, 4, 0, 0, 0, 0, 0, 2], [7, 7], by decide, by decide, by decide +kernel, rfl⟩,
     fun h => by simp at h, Id3F.V1OK_of_long _ _ (by decide +kernel) (by decide +kernel)⟩
+
+/-! ## APEv2-tagged files (WavPack, Musepack, Monkey's Audio, OptimFROG, TAK): `[audio][APEv2 tag][ID3v1?]` -/
+
+/-- saving over a tag mutagen wrote leaves exactly the audio followed by the new tag -/
+theorem ape_save_preserves_audio (audio : Bytes) (items : List Ape.Item) (newTag : Bytes)
+    (hs : ((items.map Ape.encodeItem).flatten).length + 32 < 256 ^ 4) (ha : ApeF.AudioOK audio (Ape.encodeTag items)) :
+    ApeF.save (audio ++ Ape.encodeTag items) newTag = .ok (audio ++ newTag) :=
+  ApeF.save_over_tag audio items newTag hs ha
+
+/-- … and a file without a tag gets the tag appended, nothing else touched -/
+theorem ape_save_untagged (f newTag : Bytes) (h : ApeF.locate f = .ok none) : ApeF.save f newTag = .ok (f ++ newTag) :=
+  ApeF.save_untagged f newTag h
+
+/-- deleting leaves exactly the audio; an ID3v1 block behind the tag (not APEv2's) stays -/
+theorem ape_delete_preserves_audio (audio : Bytes) (items : List Ape.Item)
+    (hs : ((items.map Ape.encodeItem).flatten).length + 32 < 256 ^ 4) (ha : ApeF.AudioOK audio (Ape.encodeTag items)) :
+    ApeF.delete (audio ++ Ape.encodeTag items) = .ok audio :=
+  ApeF.delete_tag audio items hs ha
+
+theorem ape_delete_keeps_id3v1 (audio v1 : Bytes) (items : List Ape.Item)
+    (hs : ((items.map Ape.encodeItem).flatten).length + 32 < 256 ^ 4)
+    (ha : audio = [] ∨ ApeF.isApeAt (audio ++ Ape.encodeTag items ++ v1) (audio.length - 24) = false) (hv : ApeF.V1OK v1) :
+    ApeF.delete (audio ++ Ape.encodeTag items ++ v1) = .ok (audio ++ v1) :=
+  ApeF.delete_tag_v1 audio v1 items hs ha hv
+
+/-- hypotheses satisfiable: 30 audio bytes, one item -/
+example : ApeF.AudioOK (List.replicate 30 5) (Ape.encodeTag [⟨[84, 105], 0, [120]⟩]) := by
+  right; decide +kernel
 
 end Mutagen.C02
